@@ -230,3 +230,63 @@ Proof.
     now rewrite E1, E2.
   - destruct (Z.leb_spec (P2 * T) (2 * (r * T))), (Z.leb_spec P2 (2 * r)); try reflexivity; exfalso; nia.
 Qed.
+
+(* ---- the specification is functional ---- *)
+Lemma scaled1_le_mono a b : a <= b -> (scaled 1 a <= scaled 1 b)%Q.
+Proof.
+  intros H. apply (scaled_le_gen _ _ _ _ a); try lia.
+  rewrite Z.sub_diag, Z.pow_0_r. assert (0 < 10 ^ (b - a)) by (apply pow10_pos; lia). lia.
+Qed.
+
+Lemma IsDown_unique p v M e M' e' : 1 <= p ->
+  IsDown p v M e -> IsDown p v M' e' -> M = M' /\ e = e'.
+Proof.
+  intros Hp [HM [H1 H2]] [HM' [H1' H2']].
+  assert (He : e = e').
+  { (* v lies in [10^(p-1+e), 10^(p+e)) and in [10^(p-1+e'), 10^(p+e')) *)
+    assert (A : forall M e M' e', 10 ^ (p - 1) <= M < 10 ^ p -> 10 ^ (p - 1) <= M' < 10 ^ p ->
+                 (v < scaled (M + 1) e)%Q -> (scaled M' e' <= v)%Q -> e' <= e).
+    { clear - Hp. intros M e M' e' HM HM' Hhi Hlo'.
+      destruct (Z.le_gt_cases e' e) as [C|C]; [exact C|exfalso].
+      assert (scaled (M + 1) e <= scaled M' e')%Q.
+      { apply (scaled_le_gen _ _ _ _ e); try lia. rewrite Z.sub_diag, Z.pow_0_r.
+        assert (10 <= 10 ^ (e' - e)).
+        { replace 10 with (10 ^ 1) at 1 by reflexivity. apply Z.pow_le_mono_r; lia. }
+        assert (10 ^ p = 10 * 10 ^ (p - 1)).
+        { replace p with (1 + (p - 1)) at 1 by lia. rewrite Z.pow_add_r by lia. reflexivity. }
+        assert (0 < 10 ^ (p - 1)) by (apply pow10_pos; lia). nia. }
+      lra. }
+    pose proof (A M e M' e' HM HM' H2 H1'). pose proof (A M' e' M e HM' HM H2' H1). lia. }
+  subst e'. split; [|reflexivity].
+  assert (scaled M e < scaled (M' + 1) e)%Q by lra.
+  assert (scaled M' e < scaled (M + 1) e)%Q by lra.
+  apply scaled_lt_same in H, H0. lia.
+Qed.
+
+Theorem RoundsDir_unique d p v r r' : 1 <= p ->
+  RoundsDir d p v r -> RoundsDir d p v r' -> (r == r')%Q.
+Proof.
+  intros Hp (M & e & HD & Hex & Hin) (M' & e' & HD' & Hex' & Hin').
+  destruct (IsDown_unique p v M e M' e' Hp HD HD') as [<- <-].
+  cbn zeta in *.
+  set (lo := scaled M e) in *. set (hi := scaled (M + 1) e) in *.
+  destruct (Qeq_dec v lo) as [E|E].
+  - rewrite (Hex E), (Hex' E). reflexivity.
+  - specialize (Hin E). specialize (Hin' E).
+    destruct d.
+    + now rewrite Hin, Hin'.
+    + now rewrite Hin, Hin'.
+    + destruct Hin as (A1 & A2 & A3), Hin' as (B1 & B2 & B3).
+      destruct (Q_dec (v - lo) (hi - v)) as [[C|C]|C].
+      * now rewrite (A1 C), (B1 C).
+      * now rewrite (A2 C), (B2 C).
+      * now rewrite (A3 C), (B3 C).
+    + destruct Hin as (A1 & A2), Hin' as (B1 & B2).
+      destruct (Qlt_le_dec (v - lo) (hi - v)) as [C|C].
+      * now rewrite (A1 C), (B1 C).
+      * now rewrite (A2 C), (B2 C).
+Qed.
+
+Theorem Rounds_unique m ng p v r r' :
+  (0 < v)%Q -> 1 <= p -> Rounds m ng p v r -> Rounds m ng p v r' -> (r == r')%Q.
+Proof. intros _ Hp. apply RoundsDir_unique. exact Hp. Qed.
